@@ -1,7 +1,7 @@
 (* C12 - Expressions parse with the documented precedence and grouping. *)
 From Coq Require Import Floats.
-From EF Require Import Model.Base Gen.Tables Model.Lexer Model.Ast Model.Parser Spec.Grammar
-                       Proofs.TableProofs Proofs.ParserProofs.
+From EF Require Import Model.Base Gen.Tables Model.Lexer Model.Ast Model.Parser Spec.Grammar Spec.Printer
+                       Proofs.TableProofs Proofs.ParserProofs Proofs.PrinterProofs.
 Open Scope N_scope.
 
 (* the binding order the parser of the CURRENT code uses is the documented one
@@ -57,3 +57,14 @@ Theorem C12_ternary_arms_flagged : forall pf md fuel lhs s r,
   parse_infix pf md (S fuel) lhs s = r ->
   match r with POk _ s' => tern s' = false | _ => True end.
 Proof. exact ParserProofs.ternary_arms_flagged. Qed.
+
+(* ------------------------------------------------------------------ *)
+(* The whole expression language, minimal parentheses: trees over identifiers and integers with the
+   documented binary operators, prefix ! - sqrt, index a[i], member a.b and calls f(x, ...), printed
+   with exactly the parentheses the documented order (index/member > call > prefix > % > ** > * / >
+   + - > comparisons > == != > && || > ..) requires, parse back to themselves - so `-a[0]` is
+   -(a[0]), `!f(a) && b` is (!(f(a))) && b, `-(a+b)*c` needs its parentheses, at any depth. *)
+Theorem C12_parse_print_min_ext : forall (pf : str -> option (option float)) (t : xtree),
+  xwf t = true ->
+  parse_tokens pf 0 (show_x t ++ [semi; eof]) = ParseOk [SExpr (x_expr t)].
+Proof. exact PrinterProofs.parse_show_min_ext. Qed.
